@@ -134,7 +134,7 @@ func Gen(seed uint64, tier string) any {
 		case x < 92:
 			d.Fault = "parentname"
 		case x < 93:
-			d.Fault = "lookalike"
+			d.Fault = core.Pick(r, "lookalike", "keyalg", "sigpad")
 		case x < 94:
 			d.Fault = "damagedkey"
 		case x < 96:
@@ -607,6 +607,40 @@ func runIn(sc *Scenario, res *core.Result, verbose bool) {
 			key = dk
 			tampered = true
 			res.Bump("fault.key_material_damaged")
+		case "keyalg":
+			// the same key material published under another algorithm number: another KEY record, not the signer's
+			ak := dns.Copy(kp.key).(*dns.KEY)
+			switch ak.Algorithm {
+			case dns.RSASHA1, dns.RSASHA1NSEC3SHA1:
+				ak.Algorithm = dns.RSASHA256
+			case dns.RSASHA256:
+				ak.Algorithm = dns.RSASHA512
+			case dns.RSASHA512:
+				ak.Algorithm = dns.RSASHA1
+			default:
+				ak.Hdr.Name = "x" + ak.Hdr.Name // (no sibling algorithm for this key type: another owner instead)
+			}
+			key = ak
+			tampered = true
+			res.Bump("fault.key_other_algorithm_number")
+		case "sigpad":
+			// an ECDSA signature re-encoded with a zero octet in front of r and of s (RDLENGTH adjusted): not the
+			// fixed-length form RFC 6605 prescribes, and not the octets that were signed for
+			if alg := kp.key.Algorithm; (alg == dns.ECDSAP256SHA256 || alg == dns.ECDSAP384SHA384) && len(buf) == len(signed) {
+				sg := reg["signature"]
+				half := (sg[1] - sg[0]) / 2
+				nb := append([]byte(nil), buf[:sg[0]]...)
+				nb = append(nb, 0)
+				nb = append(nb, buf[sg[0]:sg[0]+half]...)
+				nb = append(nb, 0)
+				nb = append(nb, buf[sg[0]+half:]...)
+				rl := srr.RdStart - 2
+				binary.BigEndian.PutUint16(nb[rl:], binary.BigEndian.Uint16(nb[rl:])+2)
+				buf = nb
+				tampered = true
+				desc = "signature halves prefixed with a zero octet"
+				res.Bump("fault.ecdsa_signature_padded")
+			}
 		case "lookalike":
 			// a KEY whose owner only looks like the signer's name: a letter replaced by a code point
 			// that folds to it under Unicode rules (KELVIN SIGN for k, LONG S for s), raw in the name
